@@ -82,7 +82,7 @@ namespace {
     ak::ContentPtr truth;
     ak::ContentPtr wrong;     // a different but plausible layout (may be null)
     ak::ContentPtr longer;    // longer than the truth (may be null)
-    std::vector<int> script;  // per generate() call: 0 ok, 1 throw, 2 short, 3 wrong form, 4 long
+    std::vector<int> script;  // per generate() call: 0 ok, 1 throw, 2 short, 3 wrong form, 4 long, 5 short and wrong form
     long calls;
     std::string key;
     GenState(): calls(0) { }
@@ -110,6 +110,14 @@ namespace {
           break;
         case 4:
           if (st_->longer.get() != nullptr) { SLog() << "gen " << st_->key << " long\n"; return st_->longer; }
+          break;
+        case 5:
+          // too short AND of another Form (e.g. a reader that answers with a truncated block of the wrong column)
+          if (st_->wrong.get() != nullptr  &&  st_->truth->length() > 0  &&  st_->wrong->length() > 0) {
+            int64_t n = std::min(st_->truth->length(), st_->wrong->length()) - 1;
+            SLog() << "gen " << st_->key << " short_wrong_form\n";
+            return st_->wrong->getitem_range_nowrap(0, n);
+          }
           break;
         default:
           break;
